@@ -1,6 +1,7 @@
 // xmlrt: gama's own result readers, in process (check C12).
 //
-//   xmlrt [--case] (xml|html) <file> [(xml|html) <file> ...]
+//   xmlrt [--case] (xml|html|xml2|html2) <file> [(xml|html|xml2|html2) <file> ...]
+//   (xml2 / html2: the same results object reads the file twice)
 //
 // For every file: LocalNetworkAdjustmentResults::read_xml / read_html on the
 // file, then EVERY field of the results data structure is dumped in a
@@ -122,7 +123,12 @@ static void one(const std::string& kind, const std::string& file) {
   LocalNetworkAdjustmentResults* r = new LocalNetworkAdjustmentResults;
   std::string end = "ok";
   try {
-    if (kind == "xml") r->read_xml(in); else r->read_html(in);
+    if (kind == "xml" || kind == "xml2") r->read_xml(in); else r->read_html(in);
+    if (kind == "xml2" || kind == "html2") {
+      // the same object reads the same file a second time: the result must be the one of a fresh object
+      std::ifstream again(file.c_str(), std::ios::binary);
+      if (kind == "xml2") r->read_xml(again); else r->read_html(again);
+    }
   } catch (const GNU_gama::Exception::parser& p) {
     end = "exception\t" + std::to_string(p.line) + "\t" + std::to_string(p.error_code) + "\t" + esc(p.str);
   } catch (const GNU_gama::Exception::matvec& m) {
@@ -149,7 +155,7 @@ int main(int argc, char** argv) {
       if (i + 1 < argc) { std::string c = argv[++i]; size_t p = c.find(':'); if (p != std::string::npos) jobs.push_back({c.substr(0, p), c.substr(p + 1)}); }
       continue;
     }
-    if ((a == "xml" || a == "html") && i + 1 < argc) { jobs.push_back({a, argv[++i]}); continue; }
+    if ((a == "xml" || a == "html" || a == "xml2" || a == "html2") && i + 1 < argc) { jobs.push_back({a, argv[++i]}); continue; }
     fprintf(stderr, "usage: xmlrt (xml|html) file ...\n");
     return 2;
   }
